@@ -51,6 +51,10 @@ def rule_instances(ref, s, typed, R):
         for t, _ in typed[1:]:
             common &= set(ref.keys(t))
         for k in sorted(common):
+            # a filter *restricts* only where the search leaves the key open; on a literal value it is an overlay that
+            # replaces it (that is C04's subject). The rule is applied to keys that are '*' in every typed search.
+            if not all((ref.forced(st, t) or {}).get(k) == "*" for t, st in typed):
+                continue
             vals = []
             for r in R:
                 d = _fields(ref, r, typed)
@@ -60,7 +64,7 @@ def rule_instances(ref, s, typed, R):
             for v in vals[:4] + ["zz9"]:
                 yield ("filter", [k, v], [s + "?" + k + "=" + v], ("field", k, v))
     # (5) '*' replaced by a literal
-    if "**" not in s:
+    if "**" not in s and not q:      # with a filter the literal may be overlaid again: rule 5 is stated for plain searches
         for i, sg in enumerate(segs):
             if sg == "*":
                 vals = []
@@ -120,7 +124,9 @@ def check_case(ref, W, fs, s):
             try:
                 for n in range(0, ref.maxlen + 1):
                     filled = s.replace("/**", "/*" * n)
-                    Un = [u for u in unfold_search(filled) if ref.is_leaf_type(u.type)]
+                    # the filled *string* must complete to a leaf type (a filter that deepens a shorter string is another search)
+                    flen = len(filled.partition("?")[0].split("/"))
+                    Un = [u for u in unfold_search(filled) if ref.is_leaf_type(u.type) and len(ref.keys(u.type)) == flen]
                     for u in Un:
                         acc |= set(find(f, u.uri))
                 n_inst += 1
